@@ -217,6 +217,44 @@ def run(chk):
             tot = float(np.nansum(out[:, 2]))
             if abs(tot - 1.5) > 1e-9:
                 chk.fail("total cycle count conserved", inp, 1.5, tot, clause="total")
+    # ---- histories on one table object: the caller's ndarray is passed to several groupings in a row ---------------------------------
+    # (the clauses are about the table the caller holds: every grouping of it must conserve its total and weighted sum and its mesh
+    # marginals must equal its re-binnings, whatever was computed from the same array before)
+    H = 120 if chk.quick else 3000
+    for _ in range(H):
+        t = gen_table(rng)
+        if len(t) < 2 or all(r == 0 for r, _, _ in t) or len(set(m for _, m, _ in t)) < 2:
+            continue
+        ft = [tuple(float(v) for v in row) for row in t]
+        arr = np.array(ft)
+        ops = [rng.choice(["range", "mean", "mesh"]) for _ in range(rng.randint(2, 4))]
+        hist = []
+        for op in ops:
+            n = rng.choice([1, 2, 3, 5])
+            hist.append([op, n])
+            inp = dict(kind="history", table=[[str(v) for v in row] for row in t], ops=list(hist))
+            chk.count("history")
+            try:
+                if op == "mesh":
+                    _, _, cm = mesh(arr, nr=n, nm=2)
+                    fresh = mesh(np.array(ft), nr=n, nm=2)[2]
+                    got, exp = cm.tolist(), fresh.tolist()
+                else:
+                    got = [[None if np.isnan(v) else float(v) for v in row] for row in rebin(arr, binby=op, n=n)]
+                    exp = impl_rebin(t, op, n=n)
+            except Exception as e:
+                chk.fail("rebin/mesh must not raise on a valid table (same array used before)", inp, "table", type(e).__name__, clause="raise")
+                break
+            if op != "mesh":
+                conservation_oracles(chk, ft, op, ("n", n), got, inp)
+            elif abs(np.sum(cm) - sum(c for _, _, c in ft)) > 1e-9 * max(1, sum(c for _, _, c in ft)):
+                chk.fail("mesh total == table total (same array used before)", inp, sum(c for _, _, c in ft), float(np.sum(cm)), clause="mesh-total")
+            if got != exp and not np.allclose(np.array(got, dtype=float), np.array(exp, dtype=float), rtol=1e-12, atol=1e-12, equal_nan=True):
+                chk.fail("grouping the caller's table gives the grouping of that table (independent of earlier groupings of the same array)",
+                         inp, exp[:6], got[:6], clause="history")
+                break
+        chk.nontriv(repr((t, ops)))
+        chk.dist("history:%s" % "-".join(o[0] for o in ops[:2]))
     # ---- entry points: TimeSeries / GUI data path ------------------------------------------------------------------------------
     from qats import TimeSeries
     from qats.app.funcs import calculate_rfc
@@ -239,6 +277,20 @@ def run(chk):
 def replay(rp):
     from qats.fatigue.rainflow import rebin
     inp = rp["input"]
+    if inp.get("kind") == "history":
+        from qats.fatigue.rainflow import mesh
+        ft = [tuple(float(Fraction(v)) for v in row) for row in inp["table"]]
+        arr, bad = np.array(ft), 0
+        for op, n in inp["ops"]:
+            if op == "mesh":
+                got, exp = mesh(arr, nr=n, nm=2)[2], mesh(np.array(ft), nr=n, nm=2)[2]
+            else:
+                got, exp = rebin(arr, binby=op, n=n), rebin(np.array(ft), binby=op, n=n)
+            same = np.allclose(got, exp, equal_nan=True)
+            print(op, n, "same as on a fresh copy of the table:", same)
+            bad += 0 if same else 1
+        print("replay: %d failing clause(s)" % bad)
+        return 1 if bad else 0
     t = [tuple(float(Fraction(v)) if isinstance(v, str) else float(v) for v in row) for row in inp["table"]]
     kw = dict(n=int(inp["value"])) if inp["kind"] == "n" else dict(w=float(Fraction(inp["value"])) if isinstance(inp["value"], str) else float(inp["value"]))
     out = rebin(np.array(t), binby=inp["binby"], **kw)
